@@ -1,6 +1,7 @@
 package main
 
 import (
+	"bytes"
 	"encoding/binary"
 	"fmt"
 	"math"
@@ -15,6 +16,7 @@ import (
 	gogodesc "github.com/gogo/protobuf/protoc-gen-gogo/descriptor"
 	gogotypes "github.com/gogo/protobuf/types"
 	protoV1 "github.com/golang/protobuf/proto" //nolint
+	"google.golang.org/protobuf/encoding/prototext"
 	"google.golang.org/protobuf/encoding/protowire"
 	"google.golang.org/protobuf/proto"
 	"google.golang.org/protobuf/reflect/protodesc"
@@ -357,8 +359,73 @@ func fmtNums(ns []int32) string {
 	return "nums:" + strings.Join(s, ",")
 }
 
+// an extension type that is NOT in the global registry (dynamically loaded custom option), on a message type for
+// which this binary links no generated extension at all: set through the runtime, it must be visible to every
+// csproto extension function exactly as to the runtime's own
+func streamC12Unregistered() {
+	fdp := &descriptorpb.FileDescriptorProto{
+		Name: proto.String("verif/ext_unregistered.proto"), Package: proto.String("verif.extu"), Syntax: proto.String("proto2"),
+		Dependency: []string{"google/protobuf/descriptor.proto"},
+		Extension: []*descriptorpb.FieldDescriptorProto{
+			{Name: proto.String("u1"), Number: proto.Int32(50301), Extendee: proto.String(".google.protobuf.OneofOptions"),
+				Type: descriptorpb.FieldDescriptorProto_TYPE_INT64.Enum(), Label: descriptorpb.FieldDescriptorProto_LABEL_OPTIONAL.Enum()},
+			{Name: proto.String("u2"), Number: proto.Int32(50302), Extendee: proto.String(".google.protobuf.OneofOptions"),
+				Type: descriptorpb.FieldDescriptorProto_TYPE_STRING.Enum(), Label: descriptorpb.FieldDescriptorProto_LABEL_OPTIONAL.Enum()}}}
+	fd, err := protodesc.NewFile(fdp, protoregistry.GlobalFiles)
+	hx.Must(err)
+	x1 := dynamicpb.NewExtensionType(fd.Extensions().Get(0))
+	x2 := dynamicpb.NewExtensionType(fd.Extensions().Get(1))
+	m := &descriptorpb.OneofOptions{}
+	proto.SetExtension(m, x1, int64(-5))
+	proto.SetExtension(m, x2, "dyn")
+	var want, got []int32
+	proto.RangeExtensions(m, func(xt protoreflect.ExtensionType, _ interface{}) bool {
+		want = append(want, int32(xt.TypeDescriptor().Number()))
+		return true
+	})
+	rerr := csproto.RangeExtensions(m, func(_ interface{}, _ string, f int32) error { got = append(got, f); return nil })
+	sort.Slice(want, func(i, j int) bool { return want[i] < want[j] })
+	sort.Slice(got, func(i, j int) bool { return got[i] < got[j] })
+	sink.OracleN++
+	if rerr != nil || fmt.Sprint(got) != fmt.Sprint(want) {
+		fail("RangeExtensions does not visit exactly the extensions that are set", "google OneofOptions with two set extensions whose types are not in the global registry", fmt.Sprint(want), fmt.Sprint(got, rerr), "ext-range-unregistered")
+	}
+	sink.OracleN++
+	if !csproto.HasExtension(m, x1) || !csproto.HasExtension(m, x2) {
+		fail("HasExtension is false for a set extension of an unregistered type", "google OneofOptions", "true", "false", "ext-has-unregistered")
+	}
+	if v, err := csproto.GetExtension(m, x1); err != nil || fmt.Sprint(v) != "-5" {
+		if p, ok := v.(*int64); !ok || p == nil || *p != -5 {
+			fail("GetExtension does not return the value of a set extension of an unregistered type", "google OneofOptions", "-5", fmt.Sprint(v, err), "ext-get-unregistered")
+		}
+	}
+	csproto.ClearAllExtensions(m)
+	sink.OracleN++
+	if proto.HasExtension(m, x1) || proto.HasExtension(m, x2) || proto.Size(m) != 0 {
+		fail("ClearAllExtensions left an extension of an unregistered type set", "google OneofOptions", "nothing set", prototext.Format(m), "ext-clearall-unregistered")
+	}
+	sink.Count("ext-unregistered-probe")
+	// a Google V1 message holding an extension in UNDECODED form (its type unknown when the bytes were unmarshaled):
+	// ClearAllExtensions removes it like the runtime's own function does
+	for _, in := range [][]byte{{0x08, 0x01, 0xA0, 0x06, 0x05}, {0xA0, 0x06, 0x05, 0xAA, 0x06, 0x01, 0x78, 0x08, 0x02}, {0x08, 0x03}, {0x08, 0x01, 0xC0, 0x3E, 0x01 /* 1000: outside the range */, 0xA0, 0x06, 0x05}} {
+		a, b := &LegacyV1Ext{}, &LegacyV1Ext{}
+		if protoV1.Unmarshal(in, a) != nil || protoV1.Unmarshal(in, b) != nil {
+			continue
+		}
+		protoV1.ClearAllExtensions(a)
+		csproto.ClearAllExtensions(b)
+		wa, _ := protoV1.Marshal(a)
+		wb, _ := protoV1.Marshal(b)
+		sink.OracleN++
+		if !bytes.Equal(wa, wb) {
+			fail("ClearAllExtensions on a Google V1 message leaves other content than the runtime's own ClearAllExtensions", "LegacyV1Ext decoded from "+hx.B(in), hx.B(wa), hx.B(wb), "ext-clearall-undecoded")
+		}
+	}
+}
+
 func streamC12(r *hx.Rng) {
 	setupExts()
+	streamC12Unregistered()
 	n := 3000
 	if thorough {
 		n = 40000
